@@ -16,7 +16,7 @@ from . import c05
 ID = "C20"
 UNKNOWN = "<unknown>"
 
-PAIRS = {"int": ["n", "m"], "str": ["s", "t"], "list": ["l", "k"]}
+PAIRS = {"int": ["n", "m"], "str": ["s", "t"], "list": ["l", "k"], "chk": ["c", "c2"]}
 LIST_KINDS = ["append", "append", "insert", "extend", "iadd", "delitem_i", "delitem_s",
               "setitem_i", "setitem_s", "setitem_s_match", "pop", "pop_last", "remove", "clear",
               "reverse", "sort", "imul"]
@@ -59,7 +59,7 @@ class Prop:
             return ctr[0]
 
         def gen_sync():
-            g = r.choice(["int", "str", "list", "list"])
+            g = r.choice(["int", "str", "list", "list", "chk"])
             a = r.randrange(nobj)
             b = (a + 1 + r.randrange(nobj - 1)) % nobj
             return {"k": "sync", "a": a, "ta": r.choice(PAIRS[g]) if r.random() < 0.3 else PAIRS[g][0],
@@ -74,9 +74,15 @@ class Prop:
             elif x < 0.17:
                 op = {"k": "unsync", "link": r.randrange(8), "mutual": r.random() < 0.8}
             elif x < 0.40:
-                g = r.choice(["int", "str"])
+                g = r.choice(["int", "str", "chk", "chk"])
                 op = {"k": "set", "o": o, "t": r.choice(PAIRS[g]), "v": fresh(),
                       "bad": r.random() < 0.08}
+                if g == "chk" and er.random() < 0.35:
+                    # a fault in the validator of the source (call 1) or of the partner
+                    # the change is propagated to (call 2)
+                    op["env"] = [{"at": "validator:c", "nth": er.choice([1, 2, 2]), "do": "raise",
+                                  "exc": er.choice(["TraitError", "ValueError", "AttributeError",
+                                                    "RuntimeError"])}]
             elif x < 0.50:
                 op = {"k": "setlist", "o": o, "t": r.choice(PAIRS["list"]),
                       "vs": [fresh() for _ in range(r.randint(0, 4))]}
@@ -120,6 +126,9 @@ class Prop:
     # ------------------------------------------------------------------ execution
     def execute(self, trace, env):
         from ..zoo20 import S, GROUPS
+        from ..values import CUR
+        from ..core import InjectedFault
+        CUR["env"] = env
         from traits.api import push_exception_handler
         from traits.trait_errors import TraitError
         nobj = trace["config"]["nobj"]
@@ -127,7 +136,7 @@ class Prop:
         vals = {}
         for i in range(nobj):
             for t, g in GROUPS.items():
-                vals[(i, t)] = {"int": 0, "str": "", "list": []}[g]
+                vals[(i, t)] = {"int": 0, "str": "", "list": [], "chk": 0}[g]
         edges = set()            # ((i, t), (j, u)) directed
         routed = []
         self._pushed = False
@@ -224,11 +233,38 @@ class Prop:
                 inflight.append(o)
                 if k == "set":
                     g = GROUPS[t]
-                    v = op["v"] if g == "int" else "s%d" % op["v"]
+                    v = op["v"] if g in ("int", "chk") else "s%d" % op["v"]
                     if op.get("bad"):
-                        v = "bad" if g == "int" else 5
+                        v = "bad" if g in ("int", "chk") else 5
+                    fault = None
+                    vf = [key for key, ev in env.plan.items() if ev["at"] == "validator:c"]
+                    if vf:
+                        # a validator fault is injected only where the order of validator
+                        # calls is unambiguous: the source has exactly one partner and that
+                        # partner propagates nowhere else
+                        out = [b for (a, b) in edges if a == src]
+                        simple = (g == "chk" and not op.get("bad") and len(out) == 1
+                                  and all(b2 == src for (a2, b2) in edges if a2 == out[0]))
+                        if simple:
+                            fault = (env.plan[vf[0]]["nth"], out[0])
+                        else:
+                            for key in vf:
+                                del env.plan[key]
                     _, e = sut(setattr, objs[o], t, v)
-                    if op.get("bad"):
+                    if fault is not None and fault[0] == 1:
+                        if not isinstance(e, (InjectedFault, TraitError)):
+                            raise Violation("C20.assign", "the source's validator raised but the "
+                                            "assignment gave %r" % (e,), i)
+                        env.probe("validator-fault-on-source")
+                    elif fault is not None and fault[0] == 2 and vals[fault[1]] != v:
+                        # the partner's validator failed: the source holds the new value, the
+                        # partner keeps its own, nothing is raised - and the link stays intact
+                        if e is not None:
+                            raise Violation("C20.raised", "a failing validator on the partner made "
+                                            "the assignment raise %r" % (e,), i)
+                        vals[src] = v
+                        env.probe("validator-fault-on-partner")
+                    elif op.get("bad"):
                         if not isinstance(e, TraitError):
                             raise Violation("C20.assign", "invalid assignment gave %r" % (e,), i)
                     else:
@@ -389,6 +425,8 @@ class Prop:
                 vals[node] = UNKNOWN       # a one-way target that had been changed independently
 
     def cleanup(self):
+        from ..values import CUR
+        CUR["env"] = None
         if getattr(self, "_pushed", False):
             from traits.api import pop_exception_handler
             pop_exception_handler()
